@@ -24,14 +24,25 @@ type ProtoName struct {
 	Name string `json:"name"     short:"n" long:"name"     description:"Unique endpoint name. Must match on the client and the server. E.g. 'ssh'."`
 }
 
+// SocketAddress returns what has to be dialed or listened on: host:port, or for unix-domain
+// sockets the name of the socket, which a URL carries in its host part (unix://name.sock), in its
+// path (unix:///var/run/app.sock) or in both (unix://dir/name.sock).
+func (pa *ProtoAddress) SocketAddress() string {
+	switch PlusEnd.ReplaceAllString(pa.Scheme, "") {
+	case "unix", "unixgram", "unixpacket":
+		return pa.Host + pa.Path
+	}
+	return pa.Host
+}
+
 func (pa *ProtoAddress) Addr() (net.Addr, error) {
 	switch pa.Scheme {
 	case "udp", "udp4", "udp6":
 		return net.ResolveUDPAddr(pa.Scheme, pa.Host)
 	case "unix", "unixgram", "unixpacket":
-		return net.ResolveUnixAddr(pa.Scheme, pa.Host)
+		return net.ResolveUnixAddr(pa.Scheme, pa.SocketAddress())
 	case "unix+tls", "unixpacket+tls":
-		return net.ResolveUnixAddr(PlusEnd.ReplaceAllString(pa.Scheme, ""), pa.Host)
+		return net.ResolveUnixAddr(PlusEnd.ReplaceAllString(pa.Scheme, ""), pa.SocketAddress())
 	case "tcp", "tpc4", "tcp6":
 		return net.ResolveTCPAddr(pa.Scheme, pa.Host)
 	case "tcp+tls", "tpc4+tls", "tcp6+tls":
